@@ -1031,7 +1031,7 @@ impl<K: Kind> Scenario for Bf<K> {
                 };
                 if vars >= n {
                     // oracle: base * 2^extra
-                    let exact_small = if extra < 100 { base.checked_shl(extra).filter(|x| x >> extra == base) } else { None };
+                    let exact_small = if extra < 128 { base.checked_shl(extra).filter(|x| x >> extra == base) } else if base == 0 { Some(0) } else { None };
                     match w[3] {
                         "u64" => {
                             let e = match exact_small {
@@ -1039,7 +1039,13 @@ impl<K: Kind> Scenario for Bf<K> {
                                 _ if base == 0 => "0".into(),
                                 _ => u64::MAX.to_string(),
                             };
-                            if e != out {
+                            // ZBDDs count paths and scale afterwards: an exact count that is
+                            // representable although 2^vars is not is accepted as well
+                            let alt = match exact_small {
+                                Some(x) if K::NAME == "zbdd" && x < u64::MAX as u128 => x.to_string(),
+                                _ => e.clone(),
+                            };
+                            if e != out && alt != out {
                                 ctx.fail("satcount", &format!("sat_count<u64>({}, {}) = {} expected {}", t.hex(), vars, out, e));
                             }
                         }
@@ -1049,7 +1055,11 @@ impl<K: Kind> Scenario for Bf<K> {
                                 _ if base == 0 => "0".into(),
                                 _ => u128::MAX.to_string(),
                             };
-                            if e != out {
+                            let alt = match exact_small {
+                                Some(x) if K::NAME == "zbdd" && x < u128::MAX => x.to_string(),
+                                _ => e.clone(),
+                            };
+                            if e != out && alt != out {
                                 ctx.fail("satcount", &format!("sat_count<u128>({}, {}) = {} expected {}", t.hex(), vars, out, e));
                             }
                         }
